@@ -20,6 +20,8 @@ use crate::world::*;
 
 pub const OWNER: &str = "owner";
 pub const COLLECTOR: &str = "collector";
+/// the address the operator may re-point the fee collection to
+pub const COLLECTOR2: &str = "collectorb";
 pub const USERS: [&str; 5] = ["alice", "bobby", "carol", "david", "erin0"];
 
 #[derive(Serialize, Deserialize, Clone, Debug, PartialEq)]
@@ -83,6 +85,10 @@ pub enum Op {
     SetFees {
         fees: [String; 3],
     },
+    /// the operator re-points the pool's fee collector address (second = to COLLECTOR2, else back to COLLECTOR)
+    SetCollector {
+        second: bool,
+    },
     Donate {
         side: usize,
         amount: u128,
@@ -137,6 +143,8 @@ pub struct Pool2 {
     pub fees_atomics: [u128; 3],
     pub blocks: u64,
     pub model: crate::scen::pool2_oracle::Model,
+    /// the fee collector address the pool is configured with right now
+    pub collector_now: String,
     /// whether the next ProvideLiquidity message lists its assets in reverse order
     pub rev_next: std::cell::Cell<bool>,
     pub funds_mode_next: std::cell::Cell<u8>,
@@ -682,6 +690,7 @@ impl Scenario for Pool2 {
             fees_atomics,
             blocks: 0,
             model: Default::default(),
+            collector_now: COLLECTOR.to_string(),
             rev_next: std::cell::Cell::new(false),
             funds_mode_next: std::cell::Cell::new(0),
             want_collect: false,
